@@ -608,19 +608,38 @@ class MArr:
 
 
 class PrefixSum:
-    """Uninterpreted prefix sum of array `a` along `dim`: S(other idx..., k) = sum_{i<=k} a[i]."""
+    """Uninterpreted prefix sum of array `a` along `dim`: S(other idx..., k) = sum_{i<=k} a[i].
+
+    Canonical per (element term, dim): two arrays whose element terms are syntactically equal (after
+    z3 simplification, over canonical index variables) share the same function symbol.  This is the
+    congruence `a == b  =>  cumsum(a) == cumsum(b)` restricted to syntactic equality."""
 
     def __init__(self, a, dim):
         self.a = a
         self.dim = dim
-        self.others = [d for d in a.dims if d != dim]
-        self.fn = z3.Function(f"Psum!{next(_uid)}", *([z3.IntSort()] * (len(self.others) + 1)), symx.Val)
+        self.others = sorted(d for d in a.dims if d != dim)
+        reg = symx.ctx().ghost.setdefault("prefix-registry", {})
+        canon = {d: z3.Int(f"cidx!{d}") for d in a.dims}
+        term = z3.simplify(a._elem(canon))
+        n = z3.simplify(_sz(a.sizes[dim]))
+        key = (term.get_id(), tuple(self.others), dim)
+        if key not in reg:
+            fn = z3.Function(f"Psum!{len(reg)}", *([z3.IntSort()] * (len(self.others) + 1)), symx.Val)
+            reg[key] = (fn, term, a, dim, list(self.others))  # (term kept alive: its id stays unique)
+        self.fn = reg[key][0]
 
     def at(self, idx, k):
+        if symx.ctx().ghost.get("expand-sums"):
+            kk = z3.simplify(k) if z3.is_expr(k) else z3.IntVal(k)
+            if z3.is_int_value(kk):
+                tot = z3.RealVal(0)
+                for i in range(0, kk.as_long() + 1):
+                    tot = tot + self.a._elem({**idx, self.dim: z3.IntVal(i)})
+                return tot
         return self.fn(*[idx[d] for d in self.others], k)
 
     def axioms_at(self, idx, k):
-        """recurrence instances at position k (and base case)"""
+        """recurrence instances at position k (and the base case) - facts of the assumed contract"""
         a = self.a
         return [
             self.at(idx, z3.IntVal(-1)) == 0,
